@@ -195,6 +195,11 @@ func genC10(r *Rng, e *Emitter, n int) {
 		sc := math.Ldexp(1, r.Intn(41)-20)
 		if sc1 || r.chance(1, 3) {
 			sc = 1 // plain integer data
+		} else if bits <= 30 && r.chance(1, 4) {
+			// very small figures (10^-81 … 10^-91, inside the property's window): products of two
+			// differences are normal numbers of 10^-170 and less
+			sc = math.Ldexp(1, -300+r.Intn(30))
+			e.tally("tiny-figure")
 		}
 		if abs64(ax)|abs64(ay)|abs64(bx)|abs64(by)|abs64(cx)|abs64(cy) >= 1<<53 {
 			continue
